@@ -397,137 +397,198 @@ def Fetch.handleData (f : Fetch) (a : Arrival) : Fetch × List CbRec :=
               (r.1, [r.2])
             else (f, [])
 
-/-- `rrSegFetcher.doCheck` for a single stream: the segment numbers of the Interests sent now.
-    `fuel` bounds the `defer s.doCheck()` recursion (each round increments `outstanding`). -/
-def doCheck : Nat → Nat → Fetch → (Nat × Fetch × List Nat)
-  | 0, outstanding, f => (outstanding, f, [])
-  | fuel + 1, outstanding, f =>
-    if outstanding ≥ window then (outstanding, f, [])
-    else if f.complete then (outstanding, f, [])                                      -- lazily removed
-    else if f.segCnt.isNone && f.wnd2 > 0 then (outstanding, f, [])                  -- wait for the first segment
-    else if (match f.segCnt with | some c => c > 0 && f.wnd2 ≥ c | none => false) then (outstanding, f, [])
-    else
-      let r := doCheck fuel (outstanding + 1) { f with wnd2 := f.wnd2 + 1 }
-      (r.1, r.2.1, f.wnd2 :: r.2.2)
+/-! ### the consumer client seen from its engine (client.go `run`, client_consume.go,
+      client_consume_seg.go, client_expressr.go)
 
-/-! ### one `Client.Consume` seen from the engine boundary (client_consume.go, client_expressr.go)
-
-  The consumer client is driven by the callbacks of its engine: for every Interest it expressed
-  either a Data or a timeout arrives.  `Key` names the Interest (`none` = the metadata Interest,
-  `some k` = segment `k`).  ExpressR re-expresses on timeout while retries are left. -/
+  One `Client` serves several concurrent `Consume` calls (index `o`).  It is driven by the callbacks
+  of its engine: for every Interest it expressed either a Data or a timeout arrives.  `Key` names
+  the Interest (`none` = the metadata Interest, `some k` = segment `k`).  ExpressR re-expresses on
+  timeout while retries are left.  Every event is processed to completion before the next one
+  (single `run` goroutine; the harness never lets two engine callbacks coincide). -/
 
 abbrev Key := Option Nat
 
 inductive Ev where
-  | data (k : Key)
-  | timeout (k : Key)
+  | data (o : Nat) (k : Key)
+  | timeout (o : Nat) (k : Key)
   | unsolicited              -- Data that matched no pending Interest: dropped by the engine
 
+/-- one `ConsumeState` plus the ExpressR bookkeeping of its Interests -/
 structure Cons where
-  name : Name                          -- argument of Consume
-  fetchName : Name                     -- `state.fetchName`
+  name : Name := []                    -- argument of Consume
+  fetchName : Name := []               -- `state.fetchName`
   metaPending : Bool := false
   metaRetries : Nat := retryBudget
-  streaming : Bool := false            -- state handed to the fetcher (`segfetch <- state`)
   f : Fetch := {}
-  outstanding : Nat := 0
   pending : List (Nat × Nat) := []     -- segment Interests out: (segment, retries left)
+
+instance : Inhabited Cons := ⟨{}⟩
+
+structure Client where
+  cons : List Cons
+  streams : List Nat := []             -- `rrSegFetcher.streams` (indices into `cons`)
+  rrIndex : Nat := 0
+  outstanding : Nat := 0
+  spin : Bool := false                 -- doCheck's selection loop does not terminate (explicit outcome)
   impossible : Bool := false           -- the event sequence cannot be produced by this model
 
-/-- result of a step: new state, Interests expressed (in order), callback observations (in order) -/
-structure ConsOut where
-  st : Cons
-  sent : List Key := []
-  cbs : List CbRec := []
+/-- what followed one event: Interests expressed (consume index, key) and callback observations -/
+structure Out where
+  sent : List (Nat × Key) := []
+  cbs : List (Nat × CbRec) := []
 
-def Cons.fail (c : Cons) : ConsOut :=
-  let r := c.f.finalizeError
-  { st := { c with f := r.1 }, cbs := r.2 }
+def Out.append (a b : Out) : Out := ⟨a.sent ++ b.sent, a.cbs ++ b.cbs⟩
 
-/-- `fetcher.add(state)` + `doCheck` -/
-def Cons.check (c : Cons) (cbs : List CbRec) : ConsOut :=
-  let r := doCheck (window + 1) c.outstanding c.f
-  { st := { c with outstanding := r.1, f := r.2.1, pending := c.pending ++ r.2.2.map fun k => (k, retryBudget) },
-    sent := r.2.2.map some, cbs := cbs }
+def Client.getCons (c : Client) (o : Nat) : Cons := c.cons.getD o default
+def Client.setCons (c : Client) (o : Nat) (x : Cons) : Client := { c with cons := c.cons.set o x }
+
+/-- the selection loop of `doCheck` (`next()` round robin, lazy removal of completed streams, stop
+    after a full circle).  Fixed code: when the stream remembered as `first` is removed, a new circle
+    starts (before the fix the loop never ended in that case).
+    Returns streams, rrIndex, the chosen stream, and whether the fuel ran out (`spin`). -/
+def pick (cons : List Cons) : Nat → List Nat → Nat → Option Nat → List Nat × Nat × Option Nat × Bool
+  | 0, streams, rr, _ => (streams, rr, none, true)
+  | fuel + 1, streams, rr, first =>
+    if streams.isEmpty then (streams, rr, none, false)                 -- next() = nil
+    else
+      let rr := (rr + 1) % streams.length
+      let s := streams.getD rr 0
+      if first = some s then (streams, rr, none, false)                 -- we've gone full circle
+      else
+        let first := if first.isNone then some s else first
+        let f := (cons.getD s default).f
+        if f.complete then
+          pick cons fuel (streams.eraseIdx rr) rr (if first = some s then none else first)
+        else if f.segCnt.isNone && f.wnd2 > 0 then pick cons fuel streams rr first      -- wait for the first segment
+        else if (match f.segCnt with | some n => n > 0 && f.wnd2 ≥ n | none => false) then
+          pick cons fuel streams rr first                                    -- all interests are out
+        else (streams, rr, some s, false)
+
+/-- `rrSegFetcher.doCheck`; `fuel` bounds the `defer s.doCheck()` recursion (each round increments
+    `outstanding`, which stops at `window`) -/
+def Client.doCheck : Nat → Client → Client × List (Nat × Key)
+  | 0, c => (c, [])
+  | fuel + 1, c =>
+    if c.outstanding ≥ window then (c, [])
+    else
+      let r := pick c.cons (2 * c.streams.length + 2) c.streams c.rrIndex none
+      let c := { c with streams := r.1, rrIndex := r.2.1, spin := c.spin || r.2.2.2 }
+      match r.2.2.1 with
+      | none => (c, [])
+      | some s =>
+        let x := c.getCons s
+        let seg := x.f.wnd2
+        let x := { x with f := { x.f with wnd2 := seg + 1 }, pending := x.pending ++ [(seg, retryBudget)] }
+        let c := { (c.setCons s x) with outstanding := c.outstanding + 1 }
+        let r2 := Client.doCheck fuel c
+        (r2.1, (s, some seg) :: r2.2)
+
+def Client.check (c : Client) (cbs : List (Nat × CbRec)) : Client × Out :=
+  let r := c.doCheck (window + 1)
+  (r.1, ⟨r.2, cbs⟩)
+
+/-- `finalizeError` of consume `o` (outside the fetcher: no doCheck) -/
+def Client.fail (c : Client) (o : Nat) : Client × Out :=
+  let x := c.getCons o
+  let r := x.f.finalizeError
+  (c.setCons o { x with f := r.1 }, ⟨[], r.2.map fun cb => (o, cb)⟩)
 
 /-- `consumeObject` once the name to fetch is known -/
-def Cons.consumeObject (c : Cons) (viaMeta : Bool) : ConsOut :=
-  match c.fetchName.getLast? with
-  | none => c.fail                                       -- "name cannot be empty"
+def Client.consumeObject (c : Client) (o : Nat) (viaMeta : Bool) : Client × Out :=
+  let x := c.getCons o
+  match x.fetchName.getLast? with
+  | none => c.fail o                                       -- "name cannot be empty"
   | some l =>
     if l.typ ≠ typVersion then
-      if viaMeta then c.fail                             -- "metadata does not have version component"
-      else { st := { c with metaPending := true }, sent := [none] }
-    else ({ c with streaming := true } : Cons).check []
+      if viaMeta then c.fail o                             -- "metadata does not have version component"
+      else (c.setCons o { x with metaPending := true }, ⟨[(o, none)], []⟩)
+    else
+      -- `segfetch <- state` ; `fetcher.add` ; `queueCheck`
+      ({ c with streams := c.streams ++ [o] } : Client).check []
 
-/-- `Client.Consume` -/
-def Cons.start (name : Name) : ConsOut :=
-  ({ name := name, fetchName := name } : Cons).consumeObject false
+/-- the `Client.Consume` calls of one operation, in order -/
+def Client.start (names : List Name) : Client × Out :=
+  let c0 : Client := { cons := names.map fun n => { name := n, fetchName := n } }
+  (List.range names.length).foldl (fun (acc : Client × Out) o =>
+    let r := acc.1.consumeObject o false
+    (r.1, acc.2.append r.2)) (c0, {})
+
+/-- `handleData` of the fetcher for consume `o` -/
+def Client.handleData (c : Client) (o : Nat) (k : Nat) (a : Arrival) : Client × Out :=
+  let x := c.getCons o
+  let r := x.f.handleData a
+  -- `s.remove(state)` happens only on regular completion
+  let removed := !x.f.complete && r.1.complete && !r.1.err && !r.1.panic
+  let c := c.setCons o { x with f := r.1, pending := x.pending.filter (·.1 ≠ k) }
+  let c := { c with outstanding := c.outstanding - 1, streams := if removed then c.streams.filter (· ≠ o) else c.streams }
+  c.check (r.2.map fun cb => (o, cb))
+
+/-- what the producer's store answers to Interest `k` of consume `o` -/
+def Client.served (serve : Name → Bool → Option Pkt) (c : Client) (o : Nat) : Key → Option Pkt
+  | none => serve ((c.getCons o).name ++ [metaKw]) true
+  | some k => serve ((c.getCons o).fetchName ++ [segComp k]) false
+
+def Client.bad (c : Client) : Client × Out := ({ c with impossible := true }, {})
 
 /-- one engine callback. `serve` is the producer store's Get as seen through the network. -/
-def Cons.step (serve : Name → Bool → Option Pkt) (c : Cons) : Ev → ConsOut
-  | .unsolicited => { st := c }
-  | .data none =>
-    if !c.metaPending then { st := { c with impossible := true } } else
-    match serve (c.name ++ [metaKw]) true with
-    | none => { st := { c with impossible := true } }
+def Client.step (serve : Name → Bool → Option Pkt) (c : Client) : Ev → Client × Out
+  | .unsolicited => (c, {})
+  | .data o none =>
+    let x := c.getCons o
+    if !x.metaPending then c.bad else
+    match c.served serve o none with
+    | none => c.bad
     | some p =>
-      let c := { c with metaPending := false }
+      let c := c.setCons o { x with metaPending := false }
       match p.md with
-      | none => c.fail                                   -- ParseMetaData fails / no usable name
-      | some (n, _) => ({ c with fetchName := n } : Cons).consumeObject true
-  | .timeout none =>
-    if !c.metaPending then { st := { c with impossible := true } }
-    else if c.metaRetries > 0 then { st := { c with metaRetries := c.metaRetries - 1 }, sent := [none] }
-    else ({ c with metaPending := false } : Cons).fail
-  | .data (some k) =>
-    if !(c.pending.any (·.1 = k)) then { st := { c with impossible := true } } else
-    match serve (c.fetchName ++ [segComp k]) false with
-    | none => { st := { c with impossible := true } }
-    | some p =>
-      let r := c.f.handleData (.data p)
-      ({ c with pending := c.pending.filter (·.1 ≠ k), outstanding := c.outstanding - 1, f := r.1 } : Cons).check r.2
-  | .timeout (some k) =>
-    match c.pending.find? (·.1 = k) with
-    | none => { st := { c with impossible := true } }
+      | none => c.fail o                                   -- ParseMetaData fails / no usable name
+      | some (n, _) => (c.setCons o { (c.getCons o) with fetchName := n }).consumeObject o true
+  | .timeout o none =>
+    let x := c.getCons o
+    if !x.metaPending then c.bad
+    else if x.metaRetries > 0 then (c.setCons o { x with metaRetries := x.metaRetries - 1 }, ⟨[(o, none)], []⟩)
+    else (c.setCons o { x with metaPending := false }).fail o
+  | .data o (some k) =>
+    let x := c.getCons o
+    if !(x.pending.any (·.1 = k)) then c.bad else
+    match c.served serve o (some k) with
+    | none => c.bad
+    | some p => c.handleData o k (.data p)
+  | .timeout o (some k) =>
+    let x := c.getCons o
+    match x.pending.find? (·.1 = k) with
+    | none => c.bad
     | some (_, left) =>
       if left > 0 then
-        { st := { c with pending := c.pending.map fun e => if e.1 = k then (k, left - 1) else e }, sent := [some k] }
-      else
-        let r := c.f.handleData .timeout
-        ({ c with pending := c.pending.filter (·.1 ≠ k), outstanding := c.outstanding - 1, f := r.1 } : Cons).check r.2
+        (c.setCons o { x with pending := x.pending.map fun e => if e.1 = k then (k, left - 1) else e }, ⟨[(o, some k)], []⟩)
+      else c.handleData o k .timeout
 
-/-- what the store answers to the Interest `k` of this consume -/
-def Cons.served (serve : Name → Bool → Option Pkt) (c : Cons) : Key → Option Pkt
-  | none => serve (c.name ++ [metaKw]) true
-  | some k => serve (c.fetchName ++ [segComp k]) false
-
-def countOf (cnt : List (Key × Nat)) (k : Key) : Nat :=
+def countOf (cnt : List ((Nat × Key) × Nat)) (k : Nat × Key) : Nat :=
   match cnt.find? (·.1 = k) with
   | some (_, n) => n
   | none => 0
 
-def bump (cnt : List (Key × Nat)) (k : Key) : List (Key × Nat) :=
+def bump (cnt : List ((Nat × Key) × Nat)) (k : Nat × Key) : List ((Nat × Key) × Nat) :=
   (k, countOf cnt k + 1) :: cnt.filter (·.1 ≠ k)
 
 /-- run a whole event sequence; returns the final state and, per event, what followed it.
-    `delivers k n` = the network lets the n-th Interest for `k` and its Data through in time; the
-    engine then reports Data iff the producer's store answers, a timeout otherwise — an event that
-    contradicts this marks the run `impossible`. -/
-def Cons.run (serve : Name → Bool → Option Pkt) (delivers : Key → Nat → Bool) (name : Name) (evs : List Ev) :
-    Cons × List ConsOut :=
-  let o0 := Cons.start name
-  let r := evs.foldl (fun (acc : Cons × List ConsOut × List (Key × Nat)) e =>
+    `delivers o k n` = the network lets the n-th Interest for `k` of consume `o` and its Data through
+    in time; the engine then reports Data iff the producer's store answers, a timeout otherwise — an
+    event that contradicts this marks the run `impossible`. -/
+def Client.run (serve : Name → Bool → Option Pkt) (delivers : Nat → Key → Nat → Bool) (names : List Name)
+    (evs : List Ev) : Client × List Out :=
+  let s0 := Client.start names
+  let r := evs.foldl (fun (acc : Client × List Out × List ((Nat × Key) × Nat)) e =>
     let c := acc.1
     let cnt := acc.2.2
     let consistent : Bool :=
       match e with
-      | .data k => delivers k (countOf cnt k) && (c.served serve k).isSome
-      | .timeout k => !(delivers k (countOf cnt k) && (c.served serve k).isSome)
+      | .data o k => delivers o k (countOf cnt (o, k)) && (c.served serve o k).isSome
+      | .timeout o k => !(delivers o k (countOf cnt (o, k)) && (c.served serve o k).isSome)
       | .unsolicited => true
-    let o := c.step serve e
-    let o := if consistent then o else { o with st := { o.st with impossible := true } }
-    (o.st, acc.2.1 ++ [o], o.sent.foldl bump cnt)) (o0.st, [o0], o0.sent.foldl bump [])
+    let r := c.step serve e
+    let c' := if consistent then r.1 else { r.1 with impossible := true }
+    (c', acc.2.1 ++ [r.2], r.2.sent.foldl bump cnt)) (s0.1, [s0.2], s0.2.sent.foldl bump [])
   (r.1, r.2.1)
 
 end Ndn.C15
